@@ -41,7 +41,10 @@ BlockAt(t, q) ==  \* q = index of $3C
 FileOfName(p) == [name |-> SubSeq(p, 1, 8), type |-> p[9], dtype |-> p[10], gap |-> p[11], a1 |-> p[12] * 256 + p[13], a2 |-> p[14] * 256 + p[15], data |-> <<>>]
 NoFile == [name |-> <<>>, type |-> 0, dtype |-> 0, gap |-> 0, a1 |-> 0, a2 |-> 0, data |-> <<>>]
 \* one scanner step: state [p, has, f, files, ok, why, done, nblocks]
-Scan0 == [p |-> 1, has |-> FALSE, f |-> NoFile, files |-> <<>>, ok |-> TRUE, why |-> "", done |-> FALSE, nblocks |-> 0]
+\* noleader counts the places where the format demands a leader and the stream has none: a name-file block, or the first
+\* block after a name-file block, whose $55 $3C sync is not preceded by at least one further $55
+Scan0 == [p |-> 1, has |-> FALSE, f |-> NoFile, files |-> <<>>, ok |-> TRUE, why |-> "", done |-> FALSE, nblocks |-> 0, noleader |-> 0, first |-> FALSE]
+HasLeader(t, q, p) == q - 2 >= p /\ t[q - 2] = 85      \* a $55 of its own, after the previous block's trailer
 Stop(s, w) == [s EXCEPT !.ok = FALSE, !.why = w, !.done = TRUE]
 ScanStep(t, s) ==
   LET q == NextSig(t, s.p) IN
@@ -50,15 +53,18 @@ ScanStep(t, s) ==
   ELSE LET b == BlockAt(t, q) IN
        IF ~b.ok THEN Stop(s, b.why)
        ELSE CASE b.typ = 0 -> IF s.has \/ Len(b.pay) # 15 THEN Stop(s, "namefile")
-                             ELSE [s EXCEPT !.p = b.next, !.has = TRUE, !.f = FileOfName(b.pay), !.nblocks = @ + 1]
+                             ELSE [s EXCEPT !.p = b.next, !.has = TRUE, !.f = FileOfName(b.pay), !.nblocks = @ + 1, !.first = TRUE,
+                                            !.noleader = @ + (IF HasLeader(t, q, s.p) THEN 0 ELSE 1)]
               [] b.typ = 1 -> IF ~s.has \/ Len(b.pay) = 0 \/ Len(b.pay) > BLK THEN Stop(s, "datablock")
-                             ELSE [s EXCEPT !.p = b.next, !.f.data = @ \o b.pay, !.nblocks = @ + 1]
+                             ELSE [s EXCEPT !.p = b.next, !.f.data = @ \o b.pay, !.nblocks = @ + 1, !.first = FALSE,
+                                            !.noleader = @ + (IF s.first /\ ~HasLeader(t, q, s.p) THEN 1 ELSE 0)]
               [] b.typ = 255 -> IF ~s.has \/ Len(b.pay) # 0 THEN Stop(s, "eofblock")
-                               ELSE [s EXCEPT !.p = b.next, !.has = FALSE, !.files = Append(@, s.f), !.nblocks = @ + 1]
+                               ELSE [s EXCEPT !.p = b.next, !.has = FALSE, !.files = Append(@, s.f), !.nblocks = @ + 1, !.first = FALSE,
+                                              !.noleader = @ + (IF s.first /\ ~HasLeader(t, q, s.p) THEN 1 ELSE 0)]
               [] OTHER -> Stop(s, "blocktype")
 RECURSIVE ScanAll(_, _)
 ScanAll(t, s) == IF s.done THEN s ELSE ScanAll(t, ScanStep(t, s))
-ParseTape(t) == LET s == ScanAll(t, Scan0) IN [ok |-> s.ok, why |-> s.why, files |-> s.files, nblocks |-> s.nblocks]
+ParseTape(t) == LET s == ScanAll(t, Scan0) IN [ok |-> s.ok, why |-> s.why, files |-> s.files, nblocks |-> s.nblocks, noleader |-> s.noleader]
 \* what a name compares as: space padded / truncated to 8, letter case ignored
 NormName(n) == UpS(Pad8(IF Len(n) > 8 THEN SubSeq(n, 1, 8) ELSE n))
 FEq(a, b) == NormName(a.name) = NormName(b.name) /\ a.type = b.type /\ a.dtype = b.dtype /\ a.a1 = b.a1 /\ a.a2 = b.a2 /\ a.data = b.data
